@@ -404,6 +404,20 @@ theorem codespace_ignored (ops : List Tok) (hops : ops.all notKw = true) (st : P
   · rw [runToks_discard _ _ (by decide) (by decide) (by decide) (by decide) ops hops st]; simp [hc]
   · rw [runToks_discard _ _ (by decide) (by decide) (by decide) (by decide) ops hops st]; simp [hc]
 
+/-- `/Name usecmap` and `/Key value def` inside a ToUnicode CMap change neither the map nor (net) the operand stack:
+the parser pops the operands and goes on (`use_cmap` / `set_attr` do not touch `cid2unichr`). -/
+theorem usecmap_def_ignored (n k : Bytes) (v : Tok) (hv : notKw v = true) (st : PState) (hc : st.inCmap = true) :
+    runToks [Tok.name n, Tok.kw "usecmap"] st = .ok st ∧ runToks [Tok.name k, v, Tok.kw "def"] st = .ok st := by
+  obtain ⟨stack, inCmap, map⟩ := st
+  simp only at hc
+  subst hc
+  constructor
+  · simp [runToks, stepTok, doKeyword]
+  · cases v <;> simp_all [runToks, stepTok, doKeyword, notKw]
+
+example : (parseToUnicode [.name [72], .kw "usecmap", .name [87], .int 1, .kw "def", .str [0x41], .str [0, 0x42],
+    .kw "endbfchar"]).toOption = some [(0x41, [0x42])] := by decide
+
 /-- non-vacuity: an ill-formed W2 array (stray list, non-number, real range end, incomplete triple) still parses. -/
 example : (getWidths2 [.list [.num 1], .other, .num 1 true, .list [.num (-5), .other, .num 2, .num 7],
     .num 3 true, .num (5 / 2) false, .num 1 true, .num 2 true, .num 3 true, .num 9 true]).toOption = some [] := by
